@@ -219,9 +219,6 @@ Proof.
   - exact (eqb_iff _ _ _ _ (is_accept_spec _) (wf_prior_exp_b_spec Dense ode tc ie sc) H).
 Qed.
 
-Lemma exp_ok_true : exp_ok = true.
-Proof. vm_compute. reflexivity. Qed.
-
 Theorem prior_exp_single_field_reflection_bounded :
   forall o b x, In o odes -> In b (bases Dense) -> In x universe ->
     (Regular x -> (prior_exp Dense o x (b_ie b) (b_sc b) = Accept <-> WfPriorExp Dense o x (b_ie b) (b_sc b))) /\
@@ -229,7 +226,10 @@ Theorem prior_exp_single_field_reflection_bounded :
     (prior_exp Dense o (b_tc b) (b_ie b) x = Accept <-> WfPriorExp Dense o (b_tc b) (b_ie b) x).
 Proof.
   intros o b x Ho Hb Hx.
-  pose proof exp_ok_true as H. unfold exp_ok in H.
+  assert (H : forallb (fun o => forallb (fun b =>
+                forallb (fun x =>
+                  agree_exp o x (b_ie b) (b_sc b) && agree_exp o (b_tc b) x (b_sc b) && agree_exp o (b_tc b) (b_ie b) x)
+                  universe) (bases Dense)) odes = true) by (vm_compute; reflexivity).
   rewrite forallb_forall in H. specialize (H o Ho).
   rewrite forallb_forall in H. specialize (H b Hb). rewrite forallb_forall in H. specialize (H x Hx).
   apply andb_true_iff in H. destruct H as [H H3]. apply andb_true_iff in H. destruct H as [H1 H2].
